@@ -609,4 +609,157 @@ theorem replay_sound {ds : Nat} {prog : Prog} {t : Option Path} {ops : List Op} 
     obtain ⟨hn, hs_⟩ := hcont.2.2.2 p hp
     exact ⟨fun hw => by rw [hn hw, hkeep], hs_⟩
 
+/-! ### HASH needs no assumption -/
+
+mutual
+/-- every comparison in the record tree is a HASH comparison -/
+def Op.allHash : Op → Bool
+  | .simple q _ _ _ => match q with
+    | .read _ cmp => cmp == .hash
+    | _ => true
+  | .buildFile _ cmp _ _ _ subs _ _ _ _ _ => cmp == .hash && Op.allHashL subs
+  | .subbuild _ _ _ subs _ _ _ => Op.allHashL subs
+def Op.allHashL : List Op → Bool
+  | [] => true
+  | o :: os => Op.allHash o && Op.allHashL os
+end
+
+/-- With HASH, `FaithfulOps` is a theorem, not an assumption: a file whose hash equals the recorded one
+    has the recorded bytes. -/
+theorem faithful_of_hash {ds : Nat} {prog : Prog} {t : Option Path} {ops : List Op} {r : CallRes}
+    {w : Option String} (hF : Follows ds prog t ops r w) (U : Path → String → Nat → Prop) :
+    Op.allHashL ops = true → FaithfulOps U ops := by
+  induction hF with
+  | retOk _ _ _ _ => intro _; unfold FaithfulOps; trivial
+  | retBad _ _ _ => intro _; unfold FaithfulOps; trivial
+  | raise _ _ => intro _; unfold FaithfulOps; trivial
+  | query q k t ops r w ret exc ans hrec _ ih =>
+    intro h
+    simp only [Op.allHashL, Bool.and_eq_true] at h
+    unfold FaithfulOps
+    refine ⟨?_, ih h.2⟩
+    unfold FaithfulOp
+    cases exc with
+    | some e => simp
+    | none =>
+      cases q with
+      | read p cmp =>
+        unfold RecOK at hrec
+        simp only at hrec
+        obtain ⟨c', m', hret, hans⟩ := hrec
+        subst hans hret
+        simp only
+        intro b m _ he
+        have hc : cmp = Cmp.hash := by simpa [Op.allHash] using h.1
+        subst hc
+        exact cmpResult_hash_inj _ _ _ _ he
+      | _ => simp
+  | writeSome _ _ _ _ _ _ _ ih => exact ih
+  | writeNone _ _ _ _ _ _ ih => exact ih
+  | bfSetupFail _ _ _ _ _ _ _ _ _ _ _ _ _ ih =>
+    intro h
+    simp only [Op.allHashL, Bool.and_eq_true] at h
+    unfold FaithfulOps
+    refine ⟨?_, ih h.2⟩
+    unfold FaithfulOp
+    exact ⟨(fun hr => by cases hr), (by unfold FaithfulOps; trivial)⟩
+  | bfOk path cmp _ _ _ _ _ _ subs j c m0 _ _ _ _ _ ihb ihk =>
+    intro h
+    simp only [Op.allHashL, Op.allHash, Bool.and_eq_true, beq_iff_eq] at h
+    unfold FaithfulOps
+    refine ⟨?_, ihk h.2⟩
+    unfold FaithfulOp
+    refine ⟨fun _ b m _ he => ?_, ihb h.1.2⟩
+    have hc : cmp = Cmp.hash := h.1.1
+    subst hc
+    exact (cmpResult_hash_inj _ _ _ _ he).symm
+  | bfRaise _ _ _ _ _ _ _ _ _ _ _ _ _ _ _ _ _ ihb ihk =>
+    intro h
+    simp only [Op.allHashL, Op.allHash, Bool.and_eq_true] at h
+    unfold FaithfulOps
+    refine ⟨?_, ihk h.2⟩
+    unfold FaithfulOp
+    exact ⟨(fun hr => by cases hr), ihb h.1.2⟩
+  | bfNotCreated _ _ _ _ _ _ _ _ _ _ _ _ _ _ _ ihb ihk =>
+    intro h
+    simp only [Op.allHashL, Op.allHash, Bool.and_eq_true] at h
+    unfold FaithfulOps
+    refine ⟨?_, ihk h.2⟩
+    unfold FaithfulOp
+    exact ⟨(fun hr => by cases hr), ihb h.1.2⟩
+  | sbSetupFail _ _ _ _ _ _ _ _ _ _ _ ih =>
+    intro h
+    simp only [Op.allHashL, Bool.and_eq_true] at h
+    unfold FaithfulOps
+    refine ⟨?_, ih h.2⟩
+    unfold FaithfulOp FaithfulOps; trivial
+  | sbOk _ _ _ _ _ _ _ _ _ _ _ _ _ _ ihb ihk =>
+    intro h
+    simp only [Op.allHashL, Op.allHash, Bool.and_eq_true] at h
+    unfold FaithfulOps
+    refine ⟨?_, ihk h.2⟩
+    unfold FaithfulOp
+    exact ihb h.1
+  | sbRaise _ _ _ _ _ _ _ _ _ _ _ _ _ _ ihb ihk =>
+    intro h
+    simp only [Op.allHashL, Op.allHash, Bool.and_eq_true] at h
+    unfold FaithfulOps
+    refine ⟨?_, ihk h.2⟩
+    unfold FaithfulOp
+    exact ihb h.1
+
+/-! ### the theorem at the API edge: a subbuild served from the cache -/
+
+/-- what a successful `_subbuild_cache_lookup` means -/
+theorem lookupSub_some (s : KSt) (fname : String) (args kwargs : Json) (op : Op) (s2 : KSt)
+    (h : Impl.lookupSub s fname args kwargs = some (op, s2)) :
+    ∃ f a k subs ret sf, s.old.getSub (subKey fname args kwargs) = some (.subbuild f a k subs ret false sf) ∧
+      Impl.versionOk s fname = true ∧ Impl.replayOps subs s = some s2 ∧
+      op = .subbuild fname args kwargs subs ret false false := by
+  unfold Impl.lookupSub at h
+  split at h
+  · rename_i f a k subs ret sf hget
+    split at h
+    · rename_i hv
+      split at h
+      · cases h
+      · rename_i s2' hs2
+        simp only [Option.some.injEq, Prod.mk.injEq] at h
+        exact ⟨f, a, k, subs, ret, sf, hget, hv, by rw [hs2, h.2], h.1.symm⟩
+    · cases h
+  · cases h
+
+/-- **C01, cache transparency for one call**: when `subbuild` is served from the cache, calling the
+    function from scratch instead would return the cached value and leave the same state (up to
+    modification times, clocks and logs). -/
+theorem C01_subbuild_hit_transparent {ds : Nat} (fname : String) (args kwargs : Json) (body : Prog)
+    (s s2 : KSt) (sp : SpecSt) (op : Op) (subs : List Op) (ret : Json) (wb : Option String)
+    (hl : Impl.lookupSub s fname args kwargs = some (op, s2))
+    (hrec : ∀ f a k subs' ret' sf, s.old.getSub (subKey fname args kwargs) = some (.subbuild f a k subs' ret' false sf) →
+      subs' = subs ∧ ret' = ret)
+    (hF : Follows ds body none subs (.ok ret) wb)
+    (hsim : SpecSt.Sim sp s.sp) (hds : sp.dirSize = ds) (hff : sp.failFiles = []) (hfs : sp.failSubs = [])
+    (hwf : s.WF) (hpc : PendClaimed sp) (hfa : FaithfulOps s.InU subs) :
+    (run body none sp).1 = .ok ret ∧ SpecSt.Sim (run body none sp).2.1 s2.sp := by
+  obtain ⟨f, a, k, subs', ret', sf, hget, _, hrep, _⟩ := lookupSub_some _ _ _ _ _ _ hl
+  obtain ⟨rfl, rfl⟩ := hrec f a k subs' ret' sf hget
+  have := replay_sound hF sp s s2 hsim hds hff hfs hwf hpc (fun p hp => nomatch hp) hfa hrep
+  exact ⟨this.1, this.2.1⟩
+
+/-! ### the hypotheses are satisfiable -/
+
+/-- a record that follows a program and replays in a concrete state -/
+example :
+    let prog : Prog := .query (.isFile ["a"]) (fun _ => .ret .null)
+    let ops : List Op := [.simple (.isFile ["a"]) (.bool false) none (.ok (.bool false))]
+    let s : KSt := { sp := { fs := [], cacheFile := ["c"], dirSize := 4096, clock := 0 }, old := { buildName := "n" } }
+    Follows 4096 prog none ops (.ok .null) none ∧ Impl.replayOps ops s = some s ∧ s.WF ∧
+      FaithfulOps s.InU ops ∧ PendClaimed s.sp := by
+  refine ⟨?_, ?_, ?_, ?_, ?_⟩
+  · exact Follows.query _ _ _ _ _ _ _ _ _ ⟨⟨[], rfl⟩, rfl⟩ (Follows.retOk _ _ _ rfl)
+  · simp [Impl.replayOps, Impl.replayOp, View.recVal, visible, FS.isFile, FS.get, FS.erase, isEqual]
+  · intro p hp; cases hp
+  · unfold FaithfulOps FaithfulOp FaithfulOps; exact ⟨trivial, trivial⟩
+  · intro q _; rfl
+
 end FB
